@@ -143,7 +143,6 @@ Qed.
 (* ---- the state of the run ---------------------------------------------------------------------------------------- *)
 Section Merge.
 Variables (K : kern) (inev : event).
-Hypothesis Hstretch : get "stretch" inev = None.
 
 Definition ev_ok (e : event) : Prop := ok (vnum (ev_call K (as_event e) "delta")) /\ 0 <= cdelta K e.
 Definition lists_ok (ls : list (list event)) : Prop := Forall (Forall ev_ok) ls.
@@ -190,7 +189,7 @@ Inductive step_case (f : nat) (x : item) (r : list item) (n : nat) (a : Q) (ls :
     par_run K inev (S f) (x :: r, n) (F a) ls = [] -> step_case f x r n a ls
 | case_rest : forall i y r', itask x = Z.of_nat i -> (i < List.length ls)%nat -> nth i ls [] = [] -> r = y :: r' ->
     par_run K inev (S f) (x :: r, n) (F a) ls
-      = mkPO (F a) (ikey x) None (silent (VNum (nsub (F (prio y)) (F a))) inev)
+      = mkPO (F a) (ikey x) None (par_rest (prio y) (F a) inev)
         :: par_run K inev f (r, n) (F (prio y)) (set_nth i [] ls) ->
     pinv (r, n) (F (prio y)) (set_nth i [] ls) -> step_case f x r n a ls
 | case_event : forall i e0 li y r', itask x = Z.of_nat i -> (i < List.length ls)%nat -> nth i ls [] = e0 :: li ->
@@ -244,9 +243,6 @@ Proof. intros q now ls H. exact (p_now _ _ _ H). Qed.
 (* the deltas Ppar writes *)
 Lemma out_delta_event : forall p a e, delta_q K (put "delta" (VNum (nsub (F p) (F a))) e) == p - a.
 Proof. intros p a e. unfold delta_q. rewrite ev_call_put_same. cbn. reflexivity. Qed.
-Lemma out_delta_rest : forall p a, delta_q K (silent (VNum (nsub (F p) (F a))) inev) == p - a.
-Proof.
-  intros p a. unfold delta_q, silent. rewrite Hstretch.
-  unfold ev_call. rewrite get_put_neq by reflexivity. rewrite get_put_same. cbn. ring.
-Qed.
+Lemma out_delta_rest : forall p a, delta_q K (par_rest p (F a) inev) == p - a.
+Proof. intros p a. unfold delta_q, par_rest. rewrite ev_call_put_same. cbn. reflexivity. Qed.
 End Merge.
